@@ -47,6 +47,8 @@ def match_known(prop, v):
             continue
         if "scenario_regex" in m and not re.search(m["scenario_regex"], v.get("scenario", "")):
             continue
+        if "detail_regex" in m and not re.search(m["detail_regex"], str(v.get("detail", ""))):
+            continue
         return f
     return None
 
@@ -273,6 +275,7 @@ def main(argv):
 
             parts.append(sbytes_engine.run(prop, tier, seed, eng))
     new_viol = []
+    printed_known = set()
     for p in parts:
         for v in p.get("violations", []):
             if not v.get("reproduced"):
@@ -280,6 +283,9 @@ def main(argv):
             kf = match_known(prop, v)
             if kf:
                 v["known"] = kf.get("id", True)
+                if kf.get("id") in printed_known:
+                    continue
+                printed_known.add(kf.get("id"))
                 print("KNOWN-FINDING: property=%s %s [%s] replay=%s" % (prop, kf.get("what", v["label"]), kf.get("id", ""), v.get("replay")))
             else:
                 new_viol.append(v)
